@@ -6,7 +6,7 @@ python3 - <<'PY'
 import re,subprocess
 u=subprocess.run(['git','diff','--name-only','--diff-filter=U'],capture_output=True,text=True).stdout.split()
 for f in u:
-    if f in ('MANIFEST.json','known_findings.json'):
+    if f in ('MANIFEST.json','known_findings.json') or f.startswith('evidence/'):
         subprocess.check_call(['git','checkout','--ours',f])
     elif f=='lean/Driver.lean':
         out=[]; seen=set()
